@@ -31,7 +31,7 @@ class GVar(ModelObject):
             f = lambda interp: V.app(d) if False else z3.Const(f"gfile_{self.name}_value", z3.RealSort() if self.kind == "real" else z3.IntSort())  # noqa: E731
             f._pyvc_model = True
             return f
-        raise PyRaise("AttributeError", (name,))
+        raise Unsupported(f"netCDF attribute {name}: no assumed contract")
 
     def pv_getitem(self, cx, idx):
         if not isinstance(idx, tuple):
